@@ -60,17 +60,29 @@ structure WFReport where
   flagsOK : Bool
   ctxIdxOK : Bool
   state0OK : Bool
+  inlOK : Bool
 deriving Repr
 
 def WFReport.all (r : WFReport) : Bool :=
   r.entriesOK && r.targetsOK && r.rangesOK && r.charsOK && r.eoiOK && r.acceptAnyOK && r.flagsOK &&
-  r.ctxIdxOK && r.state0OK
+  r.ctxIdxOK && r.state0OK && r.inlOK
 
 def allAccs (d : DFA Trans) : List Acc :=
   d.foldl (fun acc s => acc ++ s.accepting ++ (DFA.succs s).foldl (fun a t =>
     match t with | .accept l => a ++ l | .goto _ => a) []) []
 
-def machineWF (d : DFA Trans) (entries : List (String × Nat)) (nCtx : Nat) : WFReport :=
+/-- strictly ascending -/
+def ascending : List Nat → Bool
+  | [] => true
+  | [_] => true
+  | a :: b :: rest => decide (a < b) && ascending (b :: rest)
+
+/-- The set of inlined states is usable by the generated code, whatever policy chose it: strictly
+ascending, within range, no initial state. -/
+def inlOK (d : DFA Trans) (inl : List Nat) : Bool :=
+  ascending inl && inl.all fun i => decide (i < d.length) && !(d.st i).initial
+
+def machineWF (d : DFA Trans) (entries : List (String × Nat)) (nCtx : Nat) (inl : List Nat) : WFReport :=
   { entriesOK := entries.all fun e =>
       e.2 < d.length && (d.st e.2).initial && (d.st e.2).preds.isEmpty && (d.st e.2).accepting.isEmpty
     targetsOK := d.all fun s => (gotoSuccs s).all fun t => t < d.length && !(d.st t).initial
@@ -83,7 +95,8 @@ def machineWF (d : DFA Trans) (entries : List (String × Nat)) (nCtx : Nat) : WF
     -- state 0 is where failures return to and the only state whose end-of-input default is
     -- `return None`: it must be an initial state; when rule sets are named it must be `Init`'s
     state0OK := decide (0 < d.length) && (d.st 0).initial && (d.st 0).accepting.isEmpty &&
-      (entries.isEmpty || entries.any fun e => e.1 == "Init" && e.2 == 0) }
+      (entries.isEmpty || entries.any fun e => e.1 == "Init" && e.2 == 0)
+    inlOK := inlOK d inl }
 
 /-- Right-context DFAs (not simplified): targets in range, tables well-formed, end-of-input
 targets accepting and without end-of-input successors of their own. -/
